@@ -8,7 +8,7 @@ use bc_components::DigestProvider;
 pub fn random_op(c: &mut Ctx, cur: &str, cfg: &GenCfg) -> String {
     let e = match c.env(cur) { Some(e) => e, None => return cur.to_string() };
     let nas = e.assertions().len();
-    match c.rng.below(34) {
+    match c.rng.below(35) {
         0 | 1 | 2 => { let a = gen_assertion(c, cfg, 1); c.assign(&format!("add {} {}", cur, a)) }
         3 => {
             // add a duplicate of an assertion already there
@@ -99,6 +99,29 @@ pub fn random_op(c: &mut Ctx, cur: &str, cfg: &GenCfg) -> String {
             c.count("hist:foreign-encrypted");
             if c.is_ok(&f) { if c.rng.chance(1, 2) { c.assign(&format!("replace_subject {} {}", cur, f)) } else { let p = gen_leaf(c, cfg); let a = c.assign(&format!("assertion {} {}", p, f)); c.assign(&format!("add {} {}", cur, a)) } }
             else { cur.to_string() }
+        }
+        34 => {
+            // a decorated assertion whose assertion proper is obscured while its own assertions stay (`ELIDED [ 'salt': .. ]`):
+            // still a legitimate assertion element; later rebuilding operations (replace_subject, compress_subject, ...) meet it
+            let a = gen_assertion(c, cfg, 0); let aa = gen_assertion(c, cfg, 0);
+            let d = c.assign(&format!("add {} {}", a, aa));
+            let act = gen_action(c);
+            c.count("hist:add-decorated-with-obscured-subject");
+            if c.rng.chance(1, 2) {
+                // obscured first, then added
+                let o = c.assign(&format!("elide_set {} rem {} {}", d, act, a));
+                if c.is_ok(&o) { c.assign(&format!("add {} {}", cur, o)) } else { cur.to_string() }
+            } else {
+                // added in the clear, obscured in place, and then the envelope is rebuilt around it
+                let with = c.assign(&format!("add {} {}", cur, d));
+                let o = c.assign(&format!("elide_set {} rem {} {}", with, act, a));
+                if !c.is_ok(&o) { return cur.to_string(); }
+                match c.rng.below(3) {
+                    0 => { let s2 = gen_leaf(c, cfg); c.assign(&format!("replace_subject {} {}", o, s2)) }
+                    1 => c.assign(&format!("compress_subject {}", o)),
+                    _ => o,
+                }
+            }
         }
         _ => {
             // the same for compression
